@@ -199,7 +199,7 @@ def gen_cases(ctx):
     cases.append({"kind": "jobs_race", "cores": 3, "jobs": 3, "repeat": 150})
     if thorough:
         cases.append({"kind": "jobs_race", "cores": 2, "jobs": 1, "repeat": 300})
-        cases.append({"kind": "jobs_race", "cores": 4, "jobs": 6, "repeat": 300})
+        cases.append({"kind": "jobs_race", "cores": 4, "jobs": 6, "repeat": 100})
         cases.append({"kind": "jobs_race", "cores": 3, "jobs": 3, "repeat": 300})
     return cases
 
@@ -288,6 +288,9 @@ def oracle(c, r):
     if k == "jobs_race":
         if r["wrong"]:
             out.append(("%d of %d free-running run_jobs calls returned wrong results" % (r["wrong"], r["calls"]), []))
+        if r.get("stuck"):
+            out.append(("%d of %d free-running run_jobs calls returned but left a worker blocked for ever in job_queue.get() "
+                        "(two workers saw the last job, one took it)" % (r["stuck"], r["calls"]), [RACE_CLASS]))
         if r["hangs"]:
             out.append(("%d of %d free-running run_jobs calls on %d quick jobs never returned (every worker found the shared "
                         "job queue still empty and exited; the main loop polls forever)" % (r["hangs"], r["calls"], c["jobs"]), [RACE_CLASS]))
@@ -453,11 +456,14 @@ def run(ctx):
         "modelled not verified: multiprocessing.Queue is FIFO per queue and loses nothing; fork start method; pickling of jobs/results",
     ]
     ctx.assumptions = [
-        "schedules are sequentially consistent interleavings of atomic worker steps (take/evaluate/put) and main-loop polls; "
-        "feeder-thread races of multiprocessing (a worker of run_jobs observing an empty shared queue before the parent's feeder "
-        "thread flushed; check-then-get races between two workers) are named, not modelled",
-        "a worker killed by a BaseException / unpicklable result never delivers: the busy-wait loops then spin forever (liveness is "
-        "not part of C14 and only proved for schedules in which every job is eventually evaluated)",
+        "schedules are sequentially consistent interleavings of atomic worker steps (take/evaluate/put) and main-loop polls; the "
+        "delay of the parent's queue feeder thread is modelled for run_jobs (action V: jobs become visible) and shown to break "
+        "termination (C14_jobs_termination_refuted, reproduced free-running by the jobs_race cases); the check-then-get race "
+        "between two workers of run_jobs is observed (jobs_race) but not modelled; the steered correspondence always runs with "
+        "visible jobs",
+        "a worker killed by a BaseException / an unpicklable result never delivers: the busy-wait loops then spin forever "
+        "(termination of SneakyPool.map is proved for schedules in which every job is eventually evaluated: C14_map_terminates)",
+        "a function that RETURNS an Exception instance is treated by both pools as if it had raised it (not generated)",
         "order theorems of SneakyPool.map hold only per worker / for one process (C14_map_order_refuted is the finding); the "
         "ordered variant is proved for the repaired map (map_fix) of proposed_fixes/C14-map-order.diff",
     ]
@@ -490,7 +496,8 @@ def run(ctx):
         d = describe(c)
         ctx.hist("workers", d["procs"] if "procs" in d else d["n"] if "n" in d else d["cores"] - 1)
         if c["kind"] == "jobs_race" and "ok" in r:
-            ctx.notes.setdefault("jobs_race", []).append({"case": d, "hangs": r["ok"]["hangs"], "calls": r["ok"]["calls"]})
+            ctx.notes.setdefault("jobs_race", []).append({"case": d, "hangs": r["ok"]["hangs"], "calls": r["ok"]["calls"],
+                                                          "calls_leaving_a_worker_blocked_in_get": r["ok"].get("stuck")})
         if c["kind"] in ("smap", "smap_free"):
             for b in c["batches"]:
                 ctx.hist("batch_size", len(b["jobs"]))
@@ -535,14 +542,16 @@ def run(ctx):
 
 MANIFEST = {
     "text": "Coq 8.16 transition-system models of SneakyPool.map, Process.run_jobs and the initializer's batching, with theorems for "
-            "every schedule (list of worker completions and main-loop polls): results are a permutation of the serial results, each "
-            "job evaluated exactly once, no item left in any queue after a call returns or raises (for every sequence of batches), "
-            "exceptions always reported, results keyed by job number reproduce serial order; positional order of SneakyPool.map is "
-            "refuted by a machine-checked witness (known finding), proved per worker / for one process, and proved in full for the "
-            "proposed repair; plus vm_compute correspondence of the model with the real pools under deterministically steered "
-            "schedules and a direct property oracle (also on free-running pools)",
+            "every schedule (list of worker completions / job takes and main-loop polls): results are a permutation of the serial "
+            "results, each job evaluated exactly once, no item left in any queue after a call returns or raises (for every sequence "
+            "of batches), exceptions reported iff a job of the batch failed, termination of map once every job is evaluated, results "
+            "keyed by job number (ResultBuilder / sorted) reproduce serial order; positional order of SneakyPool.map and termination "
+            "of run_jobs are refuted by machine-checked witnesses (two known findings, reproduced on the real code), order is proved "
+            "per worker / for one process, and in full for the proposed repairs; plus vm_compute correspondence of the model with the "
+            "real pools under deterministically steered schedules and a direct property oracle (also on free-running pools)",
     "note": "Trusted: Coq kernel + vm_compute, the steering harness (semaphore gates in the evaluated functions, proxies around the "
             "parent-side queues; code under test unmodified), FIFO/no-loss semantics of multiprocessing.Queue. Schedules are atomic "
-            "interleavings; multiprocessing feeder-thread races, worker death and MPI pools are named, not modelled.",
+            "interleavings; worker death, the check-then-get race of run_jobs workers and MPI pools are named, not modelled. Two "
+            "known findings: sneaky-map-completion-order, run-jobs-startup-race (fixes proposed in proposed_fixes/C14-*.diff).",
     "technique": "machine-checked proof in Coq (schedule-quantified transition systems) + vm_compute correspondence under steered schedules",
 }
